@@ -114,6 +114,11 @@ def rule_traversals(ctx):
     cg = callgraph(ctx)
     comps = [c for c in cg.sccs() if any(k.startswith('codegen::') for k in c)]
     n_vis = 0
+    deep_traversals = set()
+    for root in ('query::fragments::fragment_is_recursive', 'query::all_used_types'):
+        rf = ctx.fn('codegen', root)
+        if rf is not None:
+            deep_traversals |= cg.reachable([rf.key])
     for comp in comps:
         for key in sorted(comp):
             fn = ctx.fn_by_key(key)
@@ -183,7 +188,10 @@ def rule_traversals(ctx):
                 seen.setdefault(k_, []).append(rc)
             if keyed and not any(o.rule == 'DOUBLE-DESCENT' and o.instance == short(fn.path) for o in obs):
                 obs.append(ok('DOUBLE-DESCENT', short(fn.path), 'each sub-structure is descended into once per visit (%d recursive sites, mutually exclusive)' % len(keyed), fn.loc))
-            # ---- REACH-KINDS: a traversal over selections descends into every kind that has a sub-selection
+            # ---- REACH-KINDS: a *whole-subtree* traversal over selections (the fragment-recursion predicate, the
+            # used-types collector) descends into every kind that has a sub-selection
+            if fn.key not in deep_traversals:
+                continue
             for m in fn.walk(lambda x: x['k'] == 'match'):
                 if 'selection::Selection' not in m['scrut'].get('ty', '') or 'SelectionParent' in m['scrut'].get('ty', ''):
                     continue
@@ -204,7 +212,8 @@ def rule_traversals(ctx):
                     chain = H.stmt_chain(fn, m)
                     if chain:
                         blk, idx = chain[-1]
-                        for st in blk['stmts'][idx + 1:] + ([blk['expr']] if blk.get('expr') is not None else []):
+                        tail = [blk['expr']] if blk.get('expr') is not None and idx < len(blk['stmts']) else []
+                        for st in blk['stmts'][idx + 1:] + tail:
                             if any(id(rc) in {id(x) for x in walk(st)} for rc in rec_calls):
                                 after = True
                     if arm is not None and (any(id(rc) in inner for rc in rec_calls) or after):
